@@ -5,7 +5,7 @@ SPEC = {
     "shard": 24,
     "tie_codes": (),      # every code of Check/C05.v is an observable the property determines: always a failing input
 
-    "harness_args": lambda tier: ["-per", "12"],
+    "harness_args": lambda tier: ["-per", "14"],
     "trusted_base": [
         "golang.org/x/net/html parsing: the tree it produced is dumped by the harness and is the model's input",
         "DataAtom abstraction (Css/Sel.v header): for element nodes DataAtom = atom.Lookup(Data) in the HTML namespace, 0 for other nodes; asserted by the harness on every dumped tree (documents violating it are dropped)",
